@@ -41,17 +41,26 @@ CORPUS = {
                                 [["get", {"max_workers": 1, "timeout": 10, "reuse": "auto", "kill_workers": False}],
                                  ["submit", {"kind": "die", "token": 0, "cause": 3}], ["result", 0],
                                  ["get", {"max_workers": 1, "timeout": 10, "reuse": "auto", "kill_workers": False}], ["submit", _e(1)], ["wait_all"]]),
+    "resize_idle_kill_probe": _case(_cfg(executor="reusable", max_workers=1, timeout=1000),
+                                    [["get", {"max_workers": 1, "timeout": 1000, "reuse": "auto", "kill_workers": False}],
+                                     ["submit", _e(0)], ["result", 0],
+                                     ["get", {"max_workers": 2, "timeout": 1000, "reuse": "auto", "kill_workers": False}],
+                                     ["sleep", 1.0], ["kill", 1, -9], ["sleep", 50.0],
+                                     ["get", {"max_workers": 2, "timeout": 1000, "reuse": "auto", "kill_workers": False}],
+                                     ["submit", _e(7777)], ["result", 7777]]),
+    "idle_kill_then_probe": _case(_cfg(max_workers=2), [["submit", _e(0)], ["result", 0], ["sleep", 1.0], ["kill", 1, -9], ["sleep", 50.0],
+                                                       ["submit", _e(1)], ["wait_all"]]),
 }
 
 FOR = {
     "C01": ["echo_shutdown", "unp_arg_del", "unp_arg_shutdown", "pending_del", "timeout0_seq", "nowait_shutdown", "exit_with_pending",
             "two_submitters", "respawn_dies_at_start"],
-    "C02": ["die_then_probe", "respawn_dies_at_start"],
+    "C02": ["die_then_probe", "respawn_dies_at_start", "idle_kill_then_probe"],
     "C03": ["cancel_race", "timeout0_seq"],
     "C04": ["unp_arg_shutdown", "unp_res"],
     "C05": ["echo_shutdown", "unp_arg_del", "pending_del", "nowait_shutdown", "exit_with_pending"],
     "C06": ["kill_shutdown"],
     "C07": ["timeout0_seq", "timeout_small_seq"],
-    "C09": ["reusable_crash_get"],
+    "C09": ["reusable_crash_get", "resize_idle_kill_probe"],
     "C10": ["reusable_resize"],
 }
